@@ -228,8 +228,12 @@ func (r *LayerManager) resolveLayer(ctx context.Context, refspec reference.Spec,
 	r.mu.Lock()
 	if r.resolveLayerCache != nil && r.resolveLayerCache[refspec.String()] != nil {
 		if err, ok := r.resolveLayerCache[refspec.String()][target.Digest.String()]; ok {
-			r.mu.Unlock()
-			return err
+			// A memoised success only holds as long as the layer is still cached: it may
+			// have been released meanwhile. Then resolve it again.
+			if err != nil || r.holdsLayerOfBlobLocked(refspec, target.Digest) {
+				r.mu.Unlock()
+				return err
+			}
 		}
 	}
 	r.mu.Unlock()
@@ -301,6 +305,17 @@ func (r *LayerManager) resolveLayer(ctx context.Context, refspec reference.Spec,
 	}
 
 	return nil
+}
+
+// holdsLayerOfBlobLocked reports whether a layer resolved from the given layer blob is cached.
+// r.mu must be held.
+func (r *LayerManager) holdsLayerOfBlobLocked(refspec reference.Spec, dgst digest.Digest) bool {
+	for _, l := range r.layer[refspec.String()] {
+		if l.Info().Digest == dgst {
+			return true
+		}
+	}
+	return false
 }
 
 func (r *LayerManager) release(ctx context.Context, refspec reference.Spec, tocDigest digest.Digest) (int, error) {
